@@ -31,7 +31,9 @@ EXPR_SHAPES = ["- A", "NOT A", "- INT ( A )", "A + B", "- A ^ 2", "NOT A AND B",
 EXPR_CONTEXTS = ["10 Z = {e}", "10 PRINT {e}", "10 IF {e} THEN 10", "10 IF {e} THEN Z = 1 ELSE Z = 2", "10 FOR I = {e} TO 9 : NEXT I",
                  "10 Z ( {e} ) = 1", "10 ON {e} GOTO 10", "10 Z$ = {e}", "10 PLAY {e}", "10 SOUND {e} , 1", "10 IF {e} = \"A\" THEN 10",
                  "10 IF Y = 1 THEN 10 ELSE Z = {e}", "10 IF Y = 1 THEN Z = 1 ELSE IF Y = 2 THEN Z = {e}", "10 READ Q ( {e} )", "10 INPUT Q ( {e} )",
-                 "10 WIDTH {e}", "10 POKE {e} , 1", "10 HPRINT ( 1 , 2 ) , {e}", "10 CLS {e}"]
+                 "10 WIDTH {e}", "10 POKE {e} , 1", "10 HPRINT ( 1 , 2 ) , {e}", "10 CLS {e}",
+                 "10 FOR I = 1 TO {e} : NEXT I", "10 FOR I = 1 TO 9 STEP {e} : NEXT I", '10 PRINT @ {e} , "X"', "10 HSET ( {e} , 1 )", "10 LOCATE {e} , 1",
+                 "10 W = 1 : Z = {e}", "10 HCIRCLE ( 1 , 2 ) , 3 , {e}", "10 Z = Q ( {e} )", "10 PRINT TAB ( {e} ) ; 1", "10 ON {e} GOSUB 10", "10 Z = 1 : IF {e} THEN 10"]
 
 
 def programs(tier):
